@@ -7,6 +7,7 @@ FN = {'ident_a': lambda a: a, 'pair_ab': lambda a, b: (a, b)}
 MODEFN = lambda l, r: [r, l]
 TIMEOUTS = [0]
 MODES = {'none': None, 'l': 'l', 'r': 'r', '0': 0, '1': 1, 'fn': MODEFN}
+MODE_SPELLINGS = {'l': ['l', 'left', 'LHS', 'L'], 'r': ['r', 'right', 'RHS', 'R']}
 
 
 def keyarg(ks, spelling):
@@ -42,6 +43,9 @@ def observe(x, y, lk, rk, op, mode, spelling, how):
             x = {'cols': x['cols'], 'rows': [dict(r) for r in x['rows']]}
             x['rows'][i][kc[0]] = newv
             dict.__getitem__(dx, kc[0])[i] = untag(newv, ids)
+    other = dy
+    if how == 'method' and y['rows'] and (len(x['rows']) + 2 * len(y['rows'])) % 5 == 0:
+        other = {c: list(dict.__getitem__(dy, c)) for c in dict.keys(dy)}     # a plain dict of column lists
     if how == 'operator':
         f = (lambda: dx * dy) if op == 'join' else (lambda: dx / dy)
     else:
@@ -53,11 +57,13 @@ def observe(x, y, lk, rk, op, mode, spelling, how):
         if op == 'join':
             if mode != 'none' or how == 'method_mode':
                 kw['mode'] = MODES[mode]
-            f = lambda: dx.join(dy, **kw)
+                if mode in MODE_SPELLINGS:
+                    kw['mode'] = MODE_SPELLINGS[mode][(len(x['rows']) + len(y['rows'])) % 4]
+            f = lambda: dx.join(other, **kw)
         else:
             if mode == 'r':
-                kw['mode'] = 'r'
-            f = lambda: dx.xor(dy, **kw)
+                kw['mode'] = ['r', 'right', 1, 'R'][(len(x['rows']) + len(y['rows'])) % 4]
+            f = lambda: dx.xor(other, **kw)
     if TIMEOUTS[0] >= 25:       # enough evidence of non-termination; do not burn CPU on more
         return None
     status, val = watchdog.call(f, seconds=3.0)
